@@ -547,3 +547,12 @@ def describe(tier):
                      "configurations whose reference smoothed spectra are not strictly positive are refusals and are "
                      "not compared (C02 covers empty windows)",
                      "centre frequencies that are knife-edge for the reference kernel are not compared"])
+
+
+_describe_base = describe
+
+
+def describe(tier):     # noqa: F811 - the base description plus what later rounds added to the space
+    d = _describe_base(tier)
+    d["rule"] = d["rule"] + " " + 'Further roots: three windows of different length in ONE call (L, L-5, L-2 in three orders) x 9 kinds x FFT requests {nopad, default, nopad_ortho, n16} within one deviation of the default configuration; the reference tapers every window over its own length and pads it to the FFT length.'
+    return d
